@@ -28,7 +28,7 @@ class DScn:
         prefix = P.get('prefix', 'p')
         w.clock_fn = lambda: 0.0  # construction is not the subject: concrete clock while the real __init__ methods run
         try:
-            self.dc = dc = L.djangocache.DjangoCache(w.dir, {'SHARDS': shards, 'KEY_PREFIX': prefix, 'VERSION': 1, 'OPTIONS': {'cull_limit': 0, 'size_limit': shards * 2 ** 28}})
+            self.dc = dc = L.djangocache.DjangoCache(w.dir, {'SHARDS': shards, 'KEY_PREFIX': prefix, 'VERSION': 1, 'OPTIONS': dict({'cull_limit': 0, 'size_limit': shards * 2 ** 28}, **P.get('options', {}))})
             for sh in dc._cache._shards:
                 sh._con
         finally:
@@ -122,11 +122,15 @@ def ob_django(w, P):
     eff_ver = 1 if ver is None else ver
     kc, rc = s.kc(name, eff_ver)
     val = w.int('val', -2 ** 40, 2 ** 40)
-    tcls = ['default', 'none', 'zero', 'neg', 'pos'][int(w.int('tcls', 0, 4))]
+    tcls = ['default', 'none', 'zero', 'neg', 'pos', 'omitted'][int(w.int('tcls', 0, 5))]
+    omitted = tcls == 'omitted'  # the timeout argument is left out altogether: the method's own default must mean "the backend's default timeout"
+    if omitted:
+        tcls = 'default'
     tval = w.real('tval', 1, 2 ** 40)
     if tcls == 'neg':
         tval = -tval
     targ = {'default': DEFAULT_TIMEOUT, 'none': None, 'zero': 0}.get(tcls, tval)
+    tkw = {} if omitted else {'timeout': targ}
     if P.get('busy'):
         # the shard's write lock is held by someone else for the first k attempts: DjangoCache writes wait (retry=True is their
         # default) and then obey the contract in full
@@ -145,6 +149,8 @@ def ob_django(w, P):
     T0 = s.T0
 
     def now_():
+        if len(w.times) <= k0:
+            w.time()  # the call never read the clock: it is judged at an instant right after it
         return w.times[k0]
 
     def finish(T_exp, res_ok, extra=()):
@@ -166,14 +172,14 @@ def ob_django(w, P):
         ts = w.times[k0:]
         return ts[min(i, len(ts) - 1)]
     if op == 'set':
-        ret = dc.set(name, val, targ, version=ver)
+        ret = dc.set(name, val, version=ver, **tkw)
         now = now_()
         no_ties(now)
         ec, t = backend_expire(now, tcls, tval, dc.default_timeout)
         T_exp, _ = rm.r_set(T0, kc, rc, Cell(INT, zv(val)), now, ec)
         return finish(T_exp, True, [('C19', 'set returns True', ret is True)])
     if op == 'add':
-        ret = dc.add(name, val, targ, version=ver)
+        ret = dc.add(name, val, version=ver, **tkw)
         now = now_()
         no_ties(now)
         ec, t = backend_expire(now, tcls, tval, dc.default_timeout)
@@ -193,7 +199,7 @@ def ob_django(w, P):
         _, res = rm.r_contains(T0, kc, rc, now)
         return finish(T0, True, [('C19', 'has_key iff present and unexpired', bool_is(ret, res.ok))])
     if op == 'touch':
-        ret = dc.touch(name, targ, version=ver)
+        ret = dc.touch(name, version=ver, **tkw)
         now = now_()
         no_ties(now)
         ec, t = backend_expire(now, tcls, tval, dc.default_timeout)
@@ -242,7 +248,7 @@ def ob_django(w, P):
                 conj.append(Not(res.ok))
         return finish(T0, True, [('C19', 'get_many returns exactly the unexpired entries', AndL(conj))])
     if op == 'set_many':
-        ret = dc.set_many({'a': val, 'b': val + 1}, targ, version=ver)
+        ret = dc.set_many({'a': val, 'b': val + 1}, version=ver, **tkw)
         now = now_()
         no_ties(now)
         ec, t = backend_expire(now, tcls, tval, dc.default_timeout)
@@ -272,7 +278,7 @@ def ob_django(w, P):
             i_ += 1
         return finish(T_exp, True)
     if op == 'get_or_set':
-        ret = dc.get_or_set(name, val, targ, version=ver)
+        ret = dc.get_or_set(name, val, version=ver, **tkw)
         now = now_()
         no_ties(now)
         ec, t = backend_expire(tt(1), tcls, tval, dc.default_timeout)
@@ -319,7 +325,7 @@ def ob_django(w, P):
         flag('nontrivial')
         return cl
     if op == 'backend_timeout':
-        got = dc.get_backend_timeout(targ)
+        got = dc.get_backend_timeout(**tkw)
         if tcls == 'default':
             exp = dc.default_timeout
         elif tcls == 'none':
@@ -407,6 +413,9 @@ def jobs(tier):
         out.append(dict(id='django.%s.shards=3' % op, func='ob_django', params=dict(op=op, shards=3), tags=['C19', 'C13'], functions=F, weight=6))
     for op in ('set', 'add', 'touch', 'delete', 'pop', 'incr', 'decr'):
         out.append(dict(id='django.busy.noretry.%s' % op, func='ob_django_busy', params=dict(op=op, shards=1), tags=['C19', 'C14'], functions=F, weight=3, must_reach=['lock_busy']))
+    # has_key is a lock-free lookup: a held write lock does not change its answer, whatever bookkeeping the cache is configured to do on reads
+    for nm, opts in (('stats', {'statistics': 1}), ('lru', {'eviction_policy': 'least-recently-used'})):
+        out.append(dict(id='django.busy.has_key.%s' % nm, func='ob_django', params=dict(op='has_key', shards=1, busy=1, options=opts), tags=['C19', 'C14'], functions=F, weight=4))
     for op in ('set', 'add', 'touch', 'delete', 'pop', 'incr', 'set_many', 'delete_many', 'get_or_set', 'incr_version', 'clear'):
         out.append(dict(id='django.busy.wait.%s' % op, func='ob_django', params=dict(op=op, shards=1, busy=1), tags=['C19', 'C14'], functions=F, weight=8, must_reach=['lock_busy']))
     return out
